@@ -19,6 +19,15 @@ Proof.
   cbn [list_eqb] in H. apply andb_prop in H. destruct H as [H1 H2]. f_equal; [apply Heq; exact H1|apply IH; exact H2].
 Qed.
 
+(** boolean equality on pairs *)
+Definition pair_eqb {A B} (ea : A -> A -> bool) (eb : B -> B -> bool) (x y : A * B) : bool := ea (fst x) (fst y) && eb (snd x) (snd y).
+Lemma pair_eqb_eq {A B} (ea : A -> A -> bool) (eb : B -> B -> bool)
+  (Ha : forall x y, ea x y = true -> x = y) (Hb : forall x y, eb x y = true -> x = y) x y : pair_eqb ea eb x y = true -> x = y.
+Proof.
+  destruct x as [x1 x2]. destruct y as [y1 y2]. unfold pair_eqb. cbn [fst snd]. intros H. apply andb_prop in H. destruct H as [H1 H2].
+  apply Ha in H1. apply Hb in H2. subst. reflexivity.
+Qed.
+
 Section MS.
 Context {A : Type} (eqb : A -> A -> bool).
 
